@@ -3,6 +3,7 @@ package main
 // Suite "report" (C12): the evaluation views of one file at one instant, through the real command line.
 //
 //	report-run <y> <m> <d> <h> <mi> <aggregate> <fill 0/1> <diff 0/1> <now 0/1> <hex file>
+//	report-filtered <y> <m> <d> <h> <mi> <aggregate> <fill> <diff> <now> <n> <flag_1> ... <flag_n> <hex file>
 //
 // runs `klog report --aggregate … [--fill] [--diff] [--now]`, `klog total --diff [--now]`,
 // `klog today --diff [--now]` (all `--decimal --no-style --no-warn`) and `klog print --with-totals --no-style`
@@ -351,65 +352,64 @@ func parseWithTotals(out string) ([]string, string) {
 	return append([]string{strconv.Itoa(len(recs))}, recs...), ""
 }
 
-func init() {
-	register("report-run", func(a []string) string {
-		y, _ := strconv.Atoi(a[0])
-		mo, _ := strconv.Atoi(a[1])
-		d, _ := strconv.Atoi(a[2])
-		h, _ := strconv.Atoi(a[3])
-		mi, _ := strconv.Atoi(a[4])
-		aggArg := a[5]
-		fill, withDiff, withNow := a[6] == "1", a[7] == "1", a[8] == "1"
-		text := argBytes(a[9])
-		dir := scratchDir()
-		defer os.RemoveAll(dir)
-		f := filepath.Join(dir, "in.klg")
-		writeFile(f, text)
-		now := gotime.Date(y, gotime.Month(mo), d, h, mi, 30, 0, gotime.Local)
-		run := func(args ...string) (int, string, string) {
-			e := &cliEnv{Home: dir, Sticky: true, Clock: []gotime.Time{now}}
-			if withNow && args[0] != "print" {
-				args = append(args, "--now")
-			}
-			return runSafely(e, append(args, f)...)
+// views runs the commands on one file and prints the canonical line. filter: extra command-line flags for
+// report, total and print (then `klog today`, which takes no filter, is left out).
+func views(now gotime.Time, aggArg string, fill, withDiff, withNow bool, filter []string, text string) string {
+	dir := scratchDir()
+	defer os.RemoveAll(dir)
+	f := filepath.Join(dir, "in.klg")
+	writeFile(f, text)
+	run := func(args ...string) (int, string, string) {
+		e := &cliEnv{Home: dir, Sticky: true, Clock: []gotime.Time{now}}
+		if withNow && args[0] != "print" {
+			args = append(args, "--now")
 		}
-		agg := byte('d')
-		if aggArg != "" {
-			agg = strings.ToLower(aggArg[:1])[0]
+		if args[0] != "today" {
+			args = append(args, filter...)
 		}
-		var secs []viewResult
+		return runSafely(e, append(args, f)...)
+	}
+	agg := byte('d')
+	if aggArg != "" {
+		agg = strings.ToLower(aggArg[:1])[0]
+	}
+	var secs []viewResult
 
-		// klog report
-		rargs := []string{"report", "--aggregate", aggArg, "--decimal", "--no-style", "--no-warn"}
-		if fill {
-			rargs = append(rargs, "--fill")
-		}
-		if withDiff {
-			rargs = append(rargs, "--diff")
-		}
-		code, out, errText := run(rargs...)
-		if code > 0 && strings.Contains(errText, "SYNTAX ERROR") {
-			return "invalid"
-		}
-		if v, ok := classify("R", code, errText); !ok {
-			secs = append(secs, v)
-		} else if toks, why := parseReport(out, agg, withDiff); why != "" {
-			secs = append(secs, viewFail("R", why, out))
-		} else {
-			secs = append(secs, viewResult{"ok", append([]string{"R"}, toks...)})
-		}
+	// klog report
+	rargs := []string{"report", "--aggregate", aggArg, "--decimal", "--no-style", "--no-warn"}
+	if fill {
+		rargs = append(rargs, "--fill")
+	}
+	if withDiff {
+		rargs = append(rargs, "--diff")
+	}
+	code, out, errText := run(rargs...)
+	if code > 0 && strings.HasPrefix(errText, "Invocation error") {
+		return "argerr"
+	}
+	if code > 0 && strings.Contains(errText, "SYNTAX ERROR") {
+		return "invalid"
+	}
+	if v, ok := classify("R", code, errText); !ok {
+		secs = append(secs, v)
+	} else if toks, why := parseReport(out, agg, withDiff); why != "" {
+		secs = append(secs, viewFail("R", why, out))
+	} else {
+		secs = append(secs, viewResult{"ok", append([]string{"R"}, toks...)})
+	}
 
-		// klog total
-		code, out, errText = run("total", "--decimal", "--no-style", "--no-warn", "--diff")
-		if v, ok := classify("T", code, errText); !ok {
-			secs = append(secs, v)
-		} else if m := totalDiffRe.FindStringSubmatch(out); m == nil {
-			secs = append(secs, viewFail("T", "unparsed", out))
-		} else {
-			secs = append(secs, viewResult{"ok", []string{"T", m[1], m[2], m[3], m[4]}})
-		}
+	// klog total
+	code, out, errText = run("total", "--decimal", "--no-style", "--no-warn", "--diff")
+	if v, ok := classify("T", code, errText); !ok {
+		secs = append(secs, v)
+	} else if m := totalDiffRe.FindStringSubmatch(out); m == nil {
+		secs = append(secs, viewFail("T", "unparsed", out))
+	} else {
+		secs = append(secs, viewResult{"ok", []string{"T", m[1], m[2], m[3], m[4]}})
+	}
 
-		// klog today
+	// klog today
+	if filter == nil {
 		code, out, errText = run("today", "--decimal", "--no-style", "--no-warn", "--diff")
 		if v, ok := classify("D", code, errText); !ok {
 			secs = append(secs, v)
@@ -418,26 +418,48 @@ func init() {
 		} else {
 			secs = append(secs, viewResult{"ok", append([]string{"D"}, toks...)})
 		}
+	}
 
-		// klog print --with-totals
-		code, out, errText = run("print", "--with-totals", "--no-style", "--no-warn")
-		if v, ok := classify("P", code, errText); !ok {
-			secs = append(secs, v)
-		} else if toks, why := parseWithTotals(out); why != "" {
-			secs = append(secs, viewFail("P", why, out))
-		} else {
-			secs = append(secs, viewResult{"ok", append([]string{"P"}, toks...)})
-		}
+	// klog print --with-totals
+	code, out, errText = run("print", "--with-totals", "--no-style", "--no-warn")
+	if v, ok := classify("P", code, errText); !ok {
+		secs = append(secs, v)
+	} else if toks, why := parseWithTotals(out); why != "" {
+		secs = append(secs, viewFail("P", why, out))
+	} else {
+		secs = append(secs, viewResult{"ok", append([]string{"P"}, toks...)})
+	}
 
-		status := "ok"
-		rank := map[string]int{"ok": 0, "err": 1, "fail": 2, "crash": 3}
-		var toks []string
-		for _, s := range secs {
-			if rank[s.status] > rank[status] {
-				status = s.status
-			}
-			toks = append(toks, s.toks...)
+	status := "ok"
+	rank := map[string]int{"ok": 0, "err": 1, "fail": 2, "crash": 3}
+	var toks []string
+	for _, s := range secs {
+		if rank[s.status] > rank[status] {
+			status = s.status
 		}
-		return status + " " + strings.Join(toks, " ")
+		toks = append(toks, s.toks...)
+	}
+	return status + " " + strings.Join(toks, " ")
+}
+
+func init() {
+	instant := func(a []string) gotime.Time {
+		y, _ := strconv.Atoi(a[0])
+		mo, _ := strconv.Atoi(a[1])
+		d, _ := strconv.Atoi(a[2])
+		h, _ := strconv.Atoi(a[3])
+		mi, _ := strconv.Atoi(a[4])
+		return gotime.Date(y, gotime.Month(mo), d, h, mi, 30, 0, gotime.Local)
+	}
+	register("report-run", func(a []string) string {
+		return views(instant(a), a[5], a[6] == "1", a[7] == "1", a[8] == "1", nil, argBytes(a[9]))
+	})
+	register("report-filtered", func(a []string) string {
+		n, _ := strconv.Atoi(a[9])
+		filter := queryArgs(a[10:10+n], "-")
+		if filter == nil {
+			filter = []string{}
+		}
+		return views(instant(a), a[5], a[6] == "1", a[7] == "1", a[8] == "1", filter, argBytes(a[10+n]))
 	})
 }
